@@ -9,6 +9,7 @@ mod probe;
 mod engine;
 mod props;
 mod rs;
+mod tmplgen;
 mod tools;
 mod worker;
 mod zoo;
